@@ -479,22 +479,36 @@ def run(ck, facts):
                       "foreign function pointer unconverted (E0308 in the macro expansion)" % "+".join(names), C.loc(pc, arm.get("ln")))
             # ... and it is emitted whenever the whole parameter type is not FFI-safe: never nested under a test of a *part* of the type
             # (`Option<u8>`: the payload is FFI-safe, the Option is not)
-            pt_ids = {y.get("id") for y in C.walk(mt["s"]) if y.get("k") == "local"}      # the value the arms are chosen by: the whole parameter type
+            # parts of the type: what the arm's pattern binds (`TypeName::Option(inner, ..)`), followed into the parameters of a helper the arm hands them to
+            part_by_body = {id(arm["b"]): set(C.pat_bind_ids(arm["pat"]) or [])}
+            for c_ in C.walk(arm["b"]):
+                if c_.get("k") in ("call", "mcall"):
+                    g_ = next((h for h in facts.macro.fn_list if "hir" in h and C.norm_path(h["path"]) == C.norm_path(c_.get("p") or C.callee(c_) or "")), None)
+                    if g_ is None:
+                        continue
+                    args_ = ([c_["recv"]] + list(c_.get("a") or [])) if c_.get("k") == "mcall" else list(c_.get("a") or [])
+                    ps_ = [p_.get("id") if isinstance(p_, dict) else None for p_ in (g_["hir"].get("params") or [])]
+                    for i_, a_ in enumerate(args_):
+                        if i_ < len(ps_) and any(y.get("k") == "local" and y.get("id") in part_by_body[id(arm["b"])] for y in C.walk(a_)):
+                            part_by_body.setdefault(id(C.fn_body(g_)), set()).add(ps_[i_])
             for b_ in holders:
+                parts_ = part_by_body.get(id(b_), set())
                 for m_, st_ in C.with_conditions(b_):
                     if not (m_.get("k") == "macro" and m_.get("name") in ("quote", "parse_quote") and re.search(r"let\s+#name\s*:", m_.get("src", ""))):
                         continue
                     other = []
                     for ent in st_:
-                        for c_ in (x for x in ent if isinstance(x, dict)):
+                        # the condition itself: an `if` test, a match scrutinee or an arm guard (not the whole match, whose other arms are other paths)
+                        c_ = ent[1] if ent[0] in ("if", "guard") else (ent[1].get("s") if ent[0] == "arm" else None)
+                        for c_ in ([c_] if isinstance(c_, dict) else []):
                             for y in C.walk(c_):
                                 if y.get("k") == "mcall" and y.get("m") == "is_ffi_safe":
                                     r_ = C.strip(y["recv"])
                                     while r_.get("k") in ("addr", "deref"):
                                         r_ = C.strip(r_["e"])
-                                    if not (r_.get("k") == "local" and r_.get("id") in pt_ids):
+                                    if r_.get("k") == "local" and r_.get("id") in parts_:
                                         other.append(r_.get("n") or r_.get("k"))
-                    ck.expect(not other or not pt_ids, "R6", "macro::param_conversion/%s/conversion-under-whole-type-test" % "+".join(names), "",
+                    ck.expect(not other, "R6", "macro::param_conversion/%s/conversion-under-whole-type-test" % "+".join(names), "",
                               "the %s arm emits its annotated conversion only when `%s.is_ffi_safe()` fails, a test of a part of the type: a parameter whose part is FFI-safe but which is "
                               "not itself (Option<u8>) is handed over unconverted (E0308 in the macro expansion)" % ("+".join(names), ", ".join(map(str, other))), C.loc(pc, m_.get("ln")))
         if na < 2:
@@ -822,10 +836,12 @@ def exact_count_rule(ck, facts):
     """R5 (cont.): the special-method shapes the backends print (`operator[](i)`, `set x(v)`, ...) have a fixed arity; the validation that says
     "must have exactly N" rejects every other count: its guard is an inequality (`len != N`), not a one-sided comparison."""
     core = facts.core
-    f = core.fn("hir::attrs::Attrs::validate")
+    fv = core.fn("hir::attrs::Attrs::validate")
     n_ = 0
-    for m_, st_ in C.with_conditions(C.fn_body(f)):
-        if not (m_.get("k") == "macro" and "exactly" in (m_.get("src") or "")):
+    # the check may be a closure inside validate or a helper function of the same module
+    cands = [g for g in core.fn_list if "hir" in g and g.get("dk") != "Closure" and C.norm_path(g["path"]).startswith("diplomat_core::hir::attrs::")]
+    for f, m_, st_ in ((g, m_, st_) for g in cands for m_, st_ in C.with_conditions(C.fn_body(g))):
+        if not (m_.get("k") == "macro" and "must have exactly" in (m_.get("src") or "")):
             continue
         n_ += 1
         conds = [(e[1], e[2] if len(e) > 2 else "t") for e in st_ if e[0] == "if" and isinstance(e[1], dict) and C.strip(e[1]).get("k") in ("bin", "un")]
@@ -842,4 +858,4 @@ def exact_count_rule(ck, facts):
                   "the check that reports `must have exactly N parameters` is not guarded by an inequality test: a special method with more (or fewer) parameters than its generated "
                   "form has is accepted, and the backends print an operator / accessor with the wrong arity", C.loc(f, m_.get("ln")))
     if n_ < 1:
-        ck.bad("R5", "hir::Attrs::validate/exact-count/floor", "no `must have exactly` check found in Attrs::validate (1 counted: check_param_count)", C.loc(f))
+        ck.bad("R5", "hir::Attrs::validate/exact-count/floor", "no `must have exactly` check found in hir::attrs (1 counted: check_param_count)", C.loc(fv))
